@@ -912,8 +912,12 @@ impl<I> DataSetSequence<I> {
     }
 
     /// Gets a mutable reference to the items of a sequence.
+    ///
+    /// The recorded length of the sequence is reset to undefined,
+    /// in order to prevent inconsistencies.
     #[inline]
     pub fn items_mut(&mut self) -> &mut C<I> {
+        self.length = Length::UNDEFINED;
         &mut self.items
     }
 
@@ -944,6 +948,9 @@ impl<I> DataSetSequence<I> {
     /// to fit the given limit.
     #[inline]
     pub fn truncate(&mut self, limit: usize) {
+        if limit < self.items.len() {
+            self.length = Length::UNDEFINED;
+        }
         self.items.truncate(limit);
     }
 }
